@@ -877,6 +877,19 @@ class SymExec:
             return None
         info = self.pure_info_lambda(fn)
         if info is None:
+            # `{ return a && b; }`: one effect-free expression whose short-circuit operators split the CFG - read it off the AST
+            body = self.tu.body(fn)
+            stmts = self._flat_stmts(body) if body is not None else []
+            if len(stmts) == 1 and stmts[0].get('kind') == 'ReturnStmt' and self.tu.kids(stmts[0]) and self._effect_free(self.tu.kids(stmts[0])[0]):
+                env = dict(st.env)
+                for i, p in enumerate(fn.get('params', [])):
+                    env[p['id']] = ('lparam', i)
+                s2 = _State(env, st.this)
+                s2.ver = st.ver
+                s2.known = st.known
+                ret = self.nf(self.tu.kids(stmts[0])[0], s2, 1)
+                if ret is not None and not find_all(unver(ret), lambda t: t[0] == 'opaque'):
+                    return ('pred', ret)
             return None
         env = dict(st.env)
         for i, p in enumerate(fn.get('params', [])):
